@@ -280,6 +280,35 @@ def truncation_families(chk):
             continue
         if (len(s.vertices), len(s.faces)) != (nv, nf):
             fails.append((f"Family323Plus corner ({a_},{c_})", {"vertices": len(s.vertices), "faces": len(s.faces), "expected": [nv, nf]}))
+    # request - mutate the result - request again with equal parameters: the second answer is the family member again, whatever
+    # the caller did to the first one (a family that memoises and hands out one shared shape fails here)
+    import warnings
+    again = [("Family323Plus", (1.7, 2.3)), ("Family423", (1.5, 2.5)), ("Family523", (0.5 * (DOMAINS["Family523"][0][0] + DOMAINS["Family523"][0][1]), 0.5 * (DOMAINS["Family523"][1][0] + DOMAINS["Family523"][1][1]))),
+             ("TruncatedTetrahedronFamily", (0.3,)), ("RegularNGonFamily", (7,)), ("PrismAntiprismFamily", None), ("UniformPrismFamily", (5,)),
+             ("UniformAntiprismFamily", (4,)), ("UniformPyramidFamily", (4,)), ("UniformDipyramidFamily", (5,))]
+    for fam_name, args in again:
+        fam = getattr(F, fam_name, None)
+        if fam is None or args is None:
+            continue
+        n_eval += 1
+        try:
+            with warnings.catch_warnings():
+                warnings.simplefilter("ignore")
+                s1 = fam.get_shape(*args)
+                v1 = np.array(s1.vertices, float).copy()
+                try:
+                    s1.volume = 7.0 * s1.volume
+                except (AttributeError, NotImplementedError):
+                    s1.area = 7.0 * s1.area
+                s1.centroid = np.asarray(s1.centroid, float) + np.array([3.0, -1.0, 0.0])
+                s2 = fam.get_shape(*args)
+                v2 = np.array(s2.vertices, float)
+        except Exception as e:  # noqa: BLE001
+            fails.append((f"{fam_name}{args}:requested_again", {"raised": f"{type(e).__name__}: {e}"[:200]}))
+            continue
+        if s2 is s1 or v1.shape != v2.shape or not np.allclose(v1, v2, rtol=0, atol=1e-12):
+            fails.append((f"{fam_name}{args}:requested_again_after_the_first_result_was_resized_and_moved",
+                          {"same_object": s2 is s1, "first_vertex_at_first_request": v1[0].tolist(), "first_vertex_at_second_request": v2[0].tolist()}))
     for name, info in fails[:5]:
         chk.record(f"truncation:{name}", fkey, "bounded-fail", "independent-vertex-enumeration", detail=str(info)[:400], model={},
                    kind="bounded", replay=lambda m, info=info, name=name: (True, {"case": name, **info}))
@@ -287,7 +316,7 @@ def truncation_families(chk):
         chk.record("truncation:grid", fkey, "bounded-pass", "independent-vertex-enumeration", kind="bounded", detail=f"{n_eval} parameter points")
     chk.bounded.append({"clause": "get_shape(a,c) returns the half-space intersection: vertex sets within Hausdorff distance 1e-5, equal vertex "
                                   "counts where the exact vertices are >= 1e-4 apart, ValueError only where they are closer; "
-                                  "out-of-domain parameters raise; 323+ corner solids have the documented vertex / face counts",
+                                  "out-of-domain parameters raise; 323+ corner solids have the documented vertex / face counts; a second request with equal parameters is unaffected by what the caller did to the first result",
                         "bound": f"{k}x{k} grid + 2x2 seeded points per family rectangle incl. edges and corners, 18 points at 3e-5 / 3e-4 / 3e-3 "
                                  "from the edges and diagonals; 16 truncations incl. 3e-5 from 0, 1/2 and 1",
                         "evaluations": n_eval, "distinct_nontrivial": n_eval, "rule": "distinct = parameter points",
